@@ -30,6 +30,14 @@ def parruns(harnesses_q, harnesses_t, asserts, generic=None, extra=None):
             runs.append(r)
     return runs
 
+_OS_SUBS = [[r"\bos\.ReadFile\(", "vxReadFile("], [r"\bos\.WriteFile\(", "vxWriteFile("], [r"\bos\.Stat\(", "vxStat("],
+            [r"\bos\.CreateTemp\(", "vxCreateTemp("], [r"\bos\.Rename\(", "vxRename("], [r"\bos\.Remove\(", "vxRemove("]]
+C19_INST = {"files": [
+    {"file": "cmd/gosqlx/cmd/formatter.go", "subs": _OS_SUBS + [[r"\bexpandFileArgs\(args\)", "vxExpand(args)"], [r"\bValidateFileAccess\(filename\)", "vxAccess(filename)"]]},
+    {"file": "cmd/gosqlx/cmd/atomic_write.go", "subs": _OS_SUBS},
+    {"file": "cmd/gosqlx/cmd/validator.go", "subs": _OS_SUBS + [[r"\bv\.expandFileArgs\(args\)", "vxExpand(args)"], [r"\bDetectAndReadInput\(filename\)", "vxDetect(filename)"]]},
+]}
+
 CHECKS = {
     "C01": {
         "bounds": {"quick": "tokenizer: all byte strings <= 2 bytes (all values), <= 3 (lexical alphabet), <= 5 (comment alphabet); low-level parser: every token sequence of <= 2 symbolic tokens drawn from a 150-row lexeme table (statement/clause keywords, operators, literals, and rows no tokenizer produces: type-less, empty literal, mismatched literal, unknown type) at statement start and after SELECT / SELECT a FROM / SELECT a FROM t WHERE, with and without a trailing EOF, strict x dialect symbolic; accepted trees are serialised with AST.SQL",
@@ -127,6 +135,22 @@ CHECKS = {
             {"pkg": "pkg/gosqlx", "harness": "VxC15_Pair", "expect_asserts": ["C15.tables_no_extra", "C15.qtables_complete", "C15.qcolumns_no_extra", "C15.functions_no_extra", "C15.seen_parsed"]},
             {"pkg": "pkg/gosqlx", "harness": "VxC15_Ctx1", "expect_asserts": ["C15.tables_complete", "C15.columns_no_extra", "C15.seen_parsed"]},
             {"pkg": "pkg/gosqlx", "harness": "VxC15_Ctx2", "tiers": ["thorough"], "expect_asserts": ["C15.tables_complete"]},
+        ],
+    },
+    "C19": {
+        "bounds": {"quick": "units behind `gosqlx format` and `gosqlx validate` (Formatter.Format/formatFile/formatSQL, writeFileAtomic, Validator.Validate/validateFile) on an in-memory file system of 2 files, each holding one of 8 texts (valid unformatted, valid, valid+invalid statement, parser-rejected, tokenizer-rejected, comment-only, blank, zero bytes); format: mode (print / --check / -i), --uppercase and --compact symbolic; -i under one injected fault: any of the first 16 file-system operations either returns an I/O error or kills the process, a faulty write leaving k bytes on disk for every k up to the length of the new content; exit status derived as formatRun derives it; SARIF artifact URIs: normalizeURI on every path of <= 5 bytes over {. / a b} without empty elements",
+                   "thorough": "same with 3 files; URI paths <= 7 bytes"},
+        "outside": "the built binary, cobra flag parsing and os.Exit wiring (the exit status is recomputed from the unit's result exactly as formatRun/validateRun do); the real kernel file system (modelled: os.WriteFile truncates then writes, os.Rename is atomic, a crash loses nothing already written); lint --fix and parse commands (their write-back goes through the same writeFileAtomic helper, whose call site in lint.go is not executed); JSON/SARIF encoding (encoding/json reflection is not encodable; only the URI kernel is covered); directory/glob expansion and path security validation (stubbed to the identity); two or more faults in one run",
+        "assumptions": ["os.ReadFile/WriteFile/Stat/CreateTemp/Rename/Remove, (*os.File).Write/Chmod/Sync/Close, expandFileArgs, ValidateFileAccess and DetectAndReadInput are replaced by model functions with the documented contract (call sites rewritten in an overlay of the current sources on every run)", "the library verdict is gosqlx.Validate on the file's text"],
+        "runs": [
+            {"pkg": "cmd/gosqlx/cmd", "harness": "VxC19_Format", "instantiate": C19_INST, "expect_asserts": ["C19.exit_matches_library", "C19.check_only_never_writes", "C19.inplace_writes_formatted", "C19.print_equals_inplace", "C19.check_lists_exactly"]},
+            {"pkg": "cmd/gosqlx/cmd", "harness": "VxC19_InPlaceFault", "instantiate": C19_INST, "expect_asserts": ["C19.atomic_replace", "C19.write_failure_reported"]},
+            {"pkg": "cmd/gosqlx/cmd", "harness": "VxC19_Validate", "instantiate": C19_INST, "expect_asserts": ["C19.validate_matches_library", "C19.validate_counts"]},
+            {"pkg": "cmd/gosqlx/internal/output", "harness": "VxC19_SarifURI5", "tiers": ["quick"], "expect_asserts": ["C19.sarif_uri_names_input"]},
+            {"pkg": "cmd/gosqlx/internal/output", "harness": "VxC19_SarifURI7", "tiers": ["thorough"], "expect_asserts": ["C19.sarif_uri_names_input"]},
+            {"pkg": "cmd/gosqlx/cmd", "harness": "VxC19_Format3", "tiers": ["thorough"], "instantiate": C19_INST},
+            {"pkg": "cmd/gosqlx/cmd", "harness": "VxC19_InPlaceFault3", "tiers": ["thorough"], "instantiate": C19_INST},
+            {"pkg": "cmd/gosqlx/cmd", "harness": "VxC19_Validate3", "tiers": ["thorough"], "instantiate": C19_INST},
         ],
     },
     "C16": {
